@@ -80,7 +80,7 @@ def make(depth: int, rnd: float):
                     try:
                         await r.send_cemi(make_cemi(rec["i"]))
                         rec["ret"] = loop.time()
-                    except Exception as exc:  # noqa: BLE001
+                    except BaseException as exc:  # noqa: BLE001
                         rec["exc"] = repr(exc)
 
                 for _step in range(depth):
